@@ -136,3 +136,28 @@ prop(
         "DRY engine: no real descriptors or processes; the child side of fork is not executed",
     ],
 )
+
+prop(
+    "C10",
+    title="Each standard stream of the child is connected exactly where the options say",
+    level="exploration",
+    engine="real",
+    campaigns=[dict(bin="C10", sweep=True, random=dict(quick=4000, thorough=150000))],
+    level_text=("All 6 x 6 x 7 effective redirect combinations x all 8 open/closed subsets of the parent's descriptors 0-2 x 6 ways of expressing "
+                "the combination (explicit types; field only / defaults; parent, discard, file and path shorthands) are enumerated (12 096 cases), "
+                "plus random cases varying where user objects live (high numbers, 0-2), close() vs fclose(), nonblocking, start-up input. The oracle "
+                "compares the identity (st_dev, st_ino, st_rdev, access mode) of the child's own descriptors 0-2, as reported by the child, with the "
+                "requested object, checks that bytes really travel over every pipe and that user objects stay untouched. Exhaustive for the type x fd-subset table."),
+    level_note="Trusts the puppet's fstat-based snapshot and /proc/self/fd; Linux only; Windows handle plumbing unreachable.",
+    technique="exhaustive enumeration of the redirect table + rapidcheck sampling, identity oracle from the child's own report, functional pipe round-trip",
+    rule=("sweep index -> (effective type per stream, mask of closed parent descriptors, expression variant); tape -> placement of user objects, "
+          "forced low handle numbers, close/fclose, nonblocking, input. Non-trivial: some descriptor among 0-2 closed in the parent, or a user object on 0-2, "
+          "or stderr->stdout, or at least two different non-pipe types. Distinct: hash of all of these selectors."),
+    essential=dict(quick=["parent-fd-closed", "parent-0-1-2-all-closed", "user-object-on-0-2", "stderr-to-stdout", "via-shorthand", "field-only/defaults", "explicit-types", "closed-with-fclose"]),
+    exhaustive=dict(quick=True, thorough=True),
+    exhaustive_scope="the 252 effective type combinations x 8 subsets of closed parent descriptors x 6 expression variants; placement/fclose/nonblocking dimensions are sampled",
+    assumptions=[
+        "user handles are open descriptors > 0 in blocking mode (0 means unset in this API); FILE objects are opened in the right mode",
+        "'parent has none' means the descriptor is closed (close or fclose) at the time of the call",
+    ],
+)
